@@ -367,6 +367,27 @@ Definition ssub_prog (fuel events : nat) (d : sdoc)
     | _ => Ret ([], None)
     end).
 
+(** [fitsb frs n l]: the selection set nests at most [n] levels of fields, inline fragments and
+    expansions of named fragments.  Some [n] exists exactly when no fragment reachable from [l]
+    spreads itself (the validator's cycle rule); [FeaturesDocProofs.sdoc_fuel_suffices]: the executor
+    then never runs out of a fuel of at least [n + 2]. *)
+Fixpoint fitsb (frs : list fragdef) (n : nat) {struct n} : sels -> bool :=
+  fix go (l : sels) : bool :=
+    match l with
+    | SNil => true
+    | SCons s r =>
+        match s with
+        | STypename _ _ => true
+        | SField _ _ _ sub => match n with O => false | Datatypes.S k => fitsb frs k sub end
+        | SInline _ _ sub => match n with O => false | Datatypes.S k => fitsb frs k sub end
+        | SSpread _ fr =>
+            match n with
+            | O => false
+            | Datatypes.S k => match find_frag frs fr with Some d => fitsb frs k (fr_sels d) | None => true end
+            end
+        end && go r
+    end.
+
 (** a fuel that is enough for every document whose fragments are acyclic: nesting costs one unit
     per level, and no nesting is deeper than the number of nodes of the document *)
 Fixpoint sel_size (s : sel) : nat :=
